@@ -111,7 +111,8 @@ def provided_types(cfg):
 class TU:
     """a wrapper translation unit: header lines + one line per wrapper"""
 
-    def __init__(self, cfg, tag, header, wrappers, std="c++11", opt=("-O2",), extra=()):
+    def __init__(self, cfg, tag, header, wrappers, std="c++11", opt=("-O2",), extra=(), post=None):
+        self.post = post
         self.cfg = cfg
         self.tag = tag
         self.header = header
@@ -125,7 +126,7 @@ class TU:
         text_id = hashlib.sha256(("\n".join(self.header) + "\n" + "\n".join(
             w[1] for w in self.wrappers)).encode()).hexdigest()
         d = cache_path("tu", self.cfg.name, " ".join(self.cfg.named), self.tag, self.std,
-                       " ".join(self.opt), " ".join(self.extra), text_id)
+                       " ".join(self.opt), " ".join(self.extra), text_id, self.post or "")
         js = os.path.join(d, "m.json")
         ms = os.path.join(d, "missing.json")
         if os.path.exists(js) and os.path.exists(ms):
@@ -166,6 +167,12 @@ class TU:
             live = [w for i, w in enumerate(live) if i not in bad]
         else:
             raise Broken("wrapper TU %s/%s: could not isolate failing wrappers" % (self.cfg.name, self.tag))
+        if self.post:
+            ll2 = os.path.join(d, "w.post.ll")
+            r = sh(["opt-14", "-S", "-passes=" + self.post, ll, "-o", ll2])
+            if r.returncode != 0:
+                raise Broken("opt -passes=%s failed: %s" % (self.post, r.stderr[-300:]))
+            ll = ll2
         r = sh([IRDUMP, ll])
         if r.returncode != 0:
             raise Broken("irdump failed on %s: %s" % (ll, r.stderr[-400:]))
